@@ -339,7 +339,14 @@ func c01(x *Ctx) {
 	c.Min(rImm, 2)
 
 	// ---- clause 4: the buffer is worker-confined -------------------------------
-	const rConf = "C01.buffer-confined"
+	x.workerConfined("C01.buffer-confined", funcs)
+	c.Min("C01.buffer-confined", 4)
+}
+
+// workerConfined decides that the lock-free per-worker state (trace buffer, sampler
+// cache, span counter) is reachable only from the worker's own collect loop (shared by C01 and C35).
+func (x *Ctx) workerConfined(rConf string, funcs []*ssa.Function) {
+	c := x.C
 	collectFn := x.Fn(rConf, "collect", "CollectorWorker", "collect")
 	ctor := x.P.Func("collect", "", "NewCollectorWorker")
 	confined := eng.FieldIs("collect", "CollectorWorker", "cache", "datasetSamplers", "localSpanProcessed")
@@ -369,5 +376,4 @@ func c01(x *Ctx) {
 			}
 		}
 	}
-	c.Min(rConf, 4)
 }
